@@ -28,6 +28,9 @@ var preludeForms = []string{
 	"(defmacro mb (x) (list (car '(list)) 1 x))",
 	"(defmacro mterr () (quasiquote (car 5)))",
 	"(defmacro mberr () (list (car '(car)) 5))",
+	"(defmacro ms (&rest body) (quasiquote (progn (unquote-splicing body))))",
+	"(defmacro msplerr (&rest xs) (quasiquote (car 5 (unquote-splicing xs))))",
+	"(defmacro mspl2 (x &rest xs) (quasiquote (list (unquote x) (+ 0 (unquote-splicing xs)))))",
 	"(defun rec (n) (if (<= n 0) (car 5) (+ 1 (rec (- n 1)))))",
 	"(defun tailrec (n) (if (<= n 0) (car 5) (tailrec (- n 1))))",
 }
@@ -46,6 +49,7 @@ var leaves = []leaf{
 	{"macro-template-form", "(mterr)", false},
 	{"macro-built-form", "(mberr)", false},
 	{"set!-unbound", "(set! qq 1)", false},
+	{"macro-splice-template-form", "(msplerr 1 2)", false},
 	{"non-tail-recursion", "(rec 2)", true},
 	{"tail-recursion", "(tailrec 2)", true},
 }
@@ -77,6 +81,8 @@ var contexts = []ctx{
 	{"thunk", "(callit (lambda () HOLE))"},
 	{"macro-template-arg", "(mt HOLE)"},
 	{"macro-built-arg", "(mb HOLE)"},
+	{"macro-splice-arg", "(ms 1 HOLE)"},
+	{"macro-splice-nested", "(mspl2 1 2 HOLE)"},
 	{"rethrown", "(handler-bind ([condition (lambda (c &rest d) (rethrow))]) HOLE)"},
 }
 
@@ -364,7 +370,7 @@ func run(r *core.Run) {
 	r.Bound("error_kinds", len(leaves))
 	r.Bound("contexts", len(contexts))
 	r.Bound("layouts", 3)
-	r.Rule("every error kind (unbound symbol, (error ..), builtin type error, wrong arity, error inside a called function, a failing form written in a macro template, a failing form a macro built with list, set! of an unbound name, non-tail and tail recursion ending in an error) at every position of every nesting up to the depth bound of 25 contexts (argument positions, let/let* value and body, if test/branches, cond test/body, progn, lambda call, funcall, apply, map callback, labels, flet, handler-bind body, inside a handler, dotimes, thread-first, thunk, macro template argument, macro built argument, rethrown), each in 3 source layouts. Non-trivial = the program fails; distinct by source text")
+	r.Rule("every error kind (unbound symbol, (error ..), builtin type error, wrong arity, error inside a called function, a failing form written in a macro template, a failing form a macro built with list, set! of an unbound name, non-tail and tail recursion ending in an error) at every position of every nesting up to the depth bound of 27 contexts (argument positions, let/let* value and body, if test/branches, cond test/body, progn, lambda call, funcall, apply, map callback, labels, flet, handler-bind body, inside a handler, dotimes, thread-first, thunk, macro template argument, macro built argument, rethrown), each in 3 source layouts. Non-trivial = the program fails; distinct by source text")
 	r.Assume("frame names are compared only where both sides name the function (anonymous lambdas have no name)")
 	r.Assume("with elimination on, the trace of a program containing recursion must be an order-preserving subsequence of the reference chain whose innermost frame is present; for non-tail recursion and for programs without recursion it must be equal")
 	var seqs [][]int
